@@ -443,16 +443,25 @@ def known_findings(pid):
     return out
 
 
-def warnings_under_default_filters(stmt):
+WARN_PRELUDE = ("import matplotlib; matplotlib.use('Agg'); import matplotlib.pyplot as plt; "
+                "_d = np.array([[0.0, 1.0], [0.5, 2.0]]); persim.plot_diagrams([_d, _d], show=False); plt.close('all'); "
+                "persim.PersistenceImager(pixel_size=0.5).fit_transform([_d]); "
+                "persim.sliced_wasserstein(_d, _d + 0.25); persim.heat(_d, _d + 0.25); "
+                "persim.landscapes.PersLandscapeExact(dgms=[_d], hom_deg=0).p_norm(2)")
+
+
+def warnings_under_default_filters(stmt, prelude=None):
     """[T] number of warnings that reach the CALLER of `stmt` in a fresh interpreter with Python's own warning filters
-    (no -W option, no simplefilter): `import persim` must not install a filter that swallows the library's own warnings.
+    (no -W option, no simplefilter): neither `import persim` nor the calls of `prelude` (other public persim functions run
+    first in the same process, e.g. WARN_PRELUDE) may install a filter that swallows the library's own warnings.
     `stmt` is Python source using `np` and `persim`.  -> (count, categories) or None if the probe itself failed"""
     import subprocess, sys
-    code = ("import sys, warnings; sys.path.insert(0, %r)\n"
-            "import numpy as np\nimport persim\n"
-            "with warnings.catch_warnings(record=True) as w:\n"
-            "    %s\n"
-            "print('WARNED', len(w), sorted({type(x.message).__name__ for x in w}))\n" % (REPO, stmt))
+    code = ("import sys, warnings; sys.path.insert(0, %r)\n" % REPO
+            + "import numpy as np\nimport persim\nimport persim.landscapes\n"
+            + ((prelude + "\n") if prelude else "")
+            + "with warnings.catch_warnings(record=True) as w:\n"
+            + "    " + stmt + "\n"
+            + "print('WARNED', len(w), sorted({type(x.message).__name__ for x in w}))\n")
     env = dict(os.environ, MPLBACKEND="Agg", PYTHONDONTWRITEBYTECODE="1")
     env.pop("PYTHONWARNINGS", None)
     p = subprocess.run([sys.executable, "-c", code], stdout=subprocess.PIPE, stderr=subprocess.PIPE, env=env, timeout=300)
